@@ -17,7 +17,7 @@ use std::collections::BTreeMap;
 pub fn meta() -> Meta {
     Meta {
         level: "model_checking",
-        rule: "every well-formed history of at most L operations over {declare int x, declare const x, declare qubit x, declare int x = y, use x, for x in [0:y], if (x == 1), while (x == 1), a declaration as brace-less body of if / else / while / for, assign x, gate-call x, open if / else / while / for x / case / default / gate(x) / def(x), close} for x in a two-name pool (four pools: user names; pi and the library gate h; the built-in gate U; non-ASCII names), rendered as a program and analysed by the real front end; every symbol reference of the graph is compared with the reference scope stack; states = distinct reference scope stacks reached, transitions = distinct (state, operation) pairs, traces = histories executed; a history is non-trivial when some use resolves through at least two open scopes or to a shadowing declaration, or is a duplicate declaration",
+        rule: "every well-formed history of at most L operations over {declare int x, declare const x, declare qubit x, declare int x = y, use x, for x in [0:y], if (x == 1), while (x == 1), a declaration as brace-less body of if / else / while / for, assign x, gate-call x, call expression x(y) and x(y, 1, y), open if / else / while / for x / case / default / gate(x) / def(x), close} for x in a two-name pool (four pools: user names; pi and the library gate h; the built-in gate U; non-ASCII names), rendered as a program and analysed by the real front end; every symbol reference of the graph is compared with the reference scope stack; states = distinct reference scope stacks reached, transitions = distinct (state, operation) pairs, traces = histories executed; a history is non-trivial when some use resolves through at least two open scopes or to a shadowing declaration, or is a duplicate declaration",
         assumptions: vec![
             "the generator never redeclares a for-loop variable directly in its own loop body and never uses a gate/subroutine name inside its own body (the statement does not fix these cases); gate/def parameters and body are one scope",
             "hook oq3_verif: scope depth accessor",
@@ -42,6 +42,11 @@ pub enum Op {
     Use(u8),
     Assign(u8),
     CallGate(u8),
+    /// `x(y);` — a call expression: the callee and the argument are two uses, whatever the
+    /// callee turns out to be (undeclared, a variable, a gate)
+    CallFn(u8, u8),
+    /// `x(y, 1, y);` — every argument is a use
+    CallFn2(u8, u8),
     If,
     /// `if (x == 1) {` — the condition is a use resolved outside the new scope
     IfUse(u8),
@@ -62,7 +67,7 @@ pub enum Op {
     Close,
 }
 
-pub const OPS: [Op; 42] = [
+pub const OPS: [Op; 46] = [
     Op::DeclInt(0),
     Op::DeclInt(1),
     Op::DeclConst(0),
@@ -105,8 +110,12 @@ pub const OPS: [Op; 42] = [
     Op::AssignIndexed(1, 0),
     Op::AssignIndexed(0, 0),
     Op::DeclIo(1, 1),
+    Op::CallFn(0, 1),
+    Op::CallFn(1, 0),
+    Op::CallFn(0, 0),
+    Op::CallFn2(1, 0),
 ];
-/// the first 29 operations are the quick alphabet; the thorough tier uses all 42
+/// the first 29 operations are the quick alphabet; the second space of each tier uses all 46
 pub const N_QUICK_OPS: usize = 29;
 
 fn op_name(op: Op, names: &[&str; 2]) -> String {
@@ -121,6 +130,8 @@ fn op_name(op: Op, names: &[&str; 2]) -> String {
         Op::Use(n) => format!("use:{}", names[n as usize]),
         Op::Assign(n) => format!("assign:{}", names[n as usize]),
         Op::CallGate(n) => format!("call:{}", names[n as usize]),
+        Op::CallFn(n, m) => format!("callfn:{}({})", names[n as usize], names[m as usize]),
+        Op::CallFn2(n, m) => format!("callfn:{}({},1,{})", names[n as usize], names[m as usize], names[m as usize]),
         Op::BodyDecl(k, n) => format!("{}-body int:{}", ["if", "else", "while", "for"][k as usize], names[n as usize]),
         Op::If => "if".into(),
         Op::IfUse(n) => format!("if?{}", names[n as usize]),
@@ -294,7 +305,7 @@ pub fn render(hist: &[Op], family: usize) -> Option<Rendered> {
                 // ... and only while the file has held declarations and compound statements so
                 // far (once an expression-like statement has been met, `let` is that other
                 // statement too: the recorded finding)
-                if hist[..pos].iter().any(|o| matches!(o, Op::Use(_) | Op::Assign(_) | Op::CallGate(_) | Op::AssignIndexed(..))) {
+                if hist[..pos].iter().any(|o| matches!(o, Op::Use(_) | Op::Assign(_) | Op::CallGate(_) | Op::AssignIndexed(..) | Op::CallFn(..) | Op::CallFn2(..))) {
                     return None;
                 }
                 let rhs = names[m as usize];
@@ -317,6 +328,26 @@ pub fn render(hist: &[Op], family: usize) -> Option<Rendered> {
                     text.push_str(if k == 0 { "[" } else { "] = 1;\n" });
                     let (target, dist) = lookup(&scopes, name);
                     if target.is_none() && k == 0 {
+                        nontrivial = true;
+                    }
+                    events.push(Expect { name: name.to_string(), range: (start, end), is_decl: false, target, gate_use: false, typed: false, deep: dist >= 1 });
+                }
+            }
+            Op::CallFn(n, m) | Op::CallFn2(n, m) => {
+                let arg = names[m as usize];
+                let uses: Vec<(&str, &str)> = if matches!(op, Op::CallFn(..)) {
+                    vec![(names[n as usize], "("), (arg, ");\n")]
+                } else {
+                    vec![(names[n as usize], "("), (arg, ", 1, "), (arg, ");\n")]
+                };
+                for (k, (name, after)) in uses.into_iter().enumerate() {
+                    let start = text.len();
+                    text.push_str(name);
+                    let end = text.len();
+                    text.push_str(after);
+                    let (target, dist) = lookup(&scopes, name);
+                    if k > 0 && lookup(&scopes, names[n as usize]).0.is_none() {
+                        // an argument of a call whose callee is not declared
                         nontrivial = true;
                     }
                     events.push(Expect { name: name.to_string(), range: (start, end), is_decl: false, target, gate_use: false, typed: false, deep: dist >= 1 });
@@ -546,11 +577,23 @@ fn walk_stmt(s: &asg::Stmt, out: &mut Vec<Found>) {
             }
         }
         asg::Stmt::DeclareQuantum(d) => out.push(Found { res: d.name().clone(), ty: None }),
-        asg::Stmt::ExprStmt(t) => {
-            if let asg::Expr::Identifier(r) = t.expression() {
-                out.push(Found { res: r.clone(), ty: Some(t.get_type().clone()) });
+        asg::Stmt::ExprStmt(t) => match t.expression() {
+            asg::Expr::Identifier(r) => out.push(Found { res: r.clone(), ty: Some(t.get_type().clone()) }),
+            asg::Expr::SubroutineCall(c) => {
+                // the callee, then every argument that is an identifier (possibly behind casts)
+                out.push(Found { res: c.name().clone(), ty: None });
+                for p in c.params().unwrap_or(&[]) {
+                    let mut e = p.expression();
+                    while let asg::Expr::Cast(k) = e {
+                        e = k.operand().expression();
+                    }
+                    if let asg::Expr::Identifier(r) = e {
+                        out.push(Found { res: r.clone(), ty: None });
+                    }
+                }
             }
-        }
+            _ => {}
+        },
         asg::Stmt::Assignment(a) => {
             match a.lvalue() {
                 asg::LValue::Identifier(r) => out.push(Found { res: r.clone(), ty: None }),
